@@ -10,6 +10,7 @@ _FAMILIES = {
     "cache": ["C05", "C08"],
     "fullsync": ["C03", "C04", "C20"],
     "ckpt": ["C17"],
+    "resync": ["C06"],
 }
 
 REGISTRY = {}
